@@ -2187,7 +2187,14 @@ func (p *Parser) evaluateUnaryOperation(ctx context) (Expression, error) {
 		}
 	}
 	valueToken := p.peek()
-	expr, err := p.evaluateSingleExpression(ctx)
+	var expr Expression
+	var err error
+
+	if negate {
+		expr, err = p.evaluateUnaryOperation(ctx) // The operand of a negation can be a negation itself (!!x).
+	} else {
+		expr, err = p.evaluateSingleExpression(ctx)
+	}
 
 	if err != nil {
 		return nil, err
